@@ -74,7 +74,7 @@ func (pass *RenameNumericEnumValues) isNumeric(name string) bool {
 	if name == "" {
 		return false
 	}
-	if first := name[0]; (first < '0' || first > '9') && first != '-' && first != '+' && first != '.' {
+	if !strings.ContainsAny(name[:1], "0123456789+-.") {
 		// ParseFloat also accepts "Inf", "NaN", …
 		return false
 	}
@@ -87,8 +87,8 @@ func (pass *RenameNumericEnumValues) enumMemberNameFromValue(member ast.EnumValu
 	// `1.0` and `10` have to stay distinct
 	name := strings.ReplaceAll(member.Name, ".", "Dot")
 
-	if name[0] == '-' {
-		return tools.UpperCamelCase(fmt.Sprintf("negative%s", name[1:]))
+	if positive, isNegative := strings.CutPrefix(name, "-"); isNegative {
+		return tools.UpperCamelCase(fmt.Sprintf("negative%s", positive))
 	}
 
 	return "N" + tools.UpperCamelCase(strings.TrimPrefix(name, "+"))
